@@ -75,7 +75,11 @@ type solveOut struct {
 }
 
 func runSolver(s solverSpec, text string, timeoutS int) solveOut {
-	ctx, cancel := context.WithTimeout(context.Background(), time.Duration(timeoutS+2)*time.Second)
+	return runSolverCtx(context.Background(), s, text, timeoutS)
+}
+
+func runSolverCtx(parent context.Context, s solverSpec, text string, timeoutS int) solveOut {
+	ctx, cancel := context.WithTimeout(parent, time.Duration(timeoutS+2)*time.Second)
 	defer cancel()
 	cmd := exec.CommandContext(ctx, s.bin, s.args(timeoutS)...)
 	cmd.Stdin = strings.NewReader(text)
@@ -181,6 +185,7 @@ func solveOne(d *Decls, o *Obligation, avail []solverSpec, cfg solveConfig) {
 	}
 	var log []string
 	agree := 0
+	agreeNames := map[string]bool{}
 	record := func(s solverSpec, r solveOut) bool {
 		log = append(log, fmt.Sprintf("%s:%s:%.2fs", s.name, r.result, r.seconds))
 		o.Seconds += r.seconds
@@ -195,7 +200,17 @@ func solveOne(d *Decls, o *Obligation, avail []solverSpec, cfg solveConfig) {
 				return true
 			}
 			if r.result == want {
-				agree++
+				base := s.name
+				if k := strings.Index(base, "/"); k >= 0 {
+					base = base[:k]
+				}
+				if base == "z3-new" || base == "z3" {
+					base = "z3-family:" + base
+				}
+				if !agreeNames[base] {
+					agreeNames[base] = true
+					agree++
+				}
 			}
 			return true
 		}
@@ -229,19 +244,34 @@ func solveOne(d *Decls, o *Obligation, avail []solverSpec, cfg solveConfig) {
 		s solverSpec
 		r solveOut
 	}
-	rest := avail[1:]
+	rest := append([]solverSpec(nil), avail[1:]...)
+	// quantifier instantiation is order-sensitive: the first solver is also run
+	// with other random seeds (a proof found under any seed is a proof)
+	if avail[0].name == "z3-new" {
+		for _, seed := range []int{1, 2, 3, 4} {
+			seed := seed
+			base := avail[0]
+			rest = append(rest, solverSpec{name: fmt.Sprintf("z3-new/seed%d", seed), bin: base.bin, args: func(t int) []string {
+				return append(base.args(t), fmt.Sprintf("smt.random_seed=%d", seed))
+			}})
+		}
+	}
 	rc := make(chan rr, len(rest))
+	pctx, pcancel := context.WithCancel(context.Background())
 	for _, s := range rest {
-		go func(s solverSpec) { rc <- rr{s, runSolver(s, text, cfg.slowT)} }(s)
+		go func(s solverSpec) { rc <- rr{s, runSolverCtx(pctx, s, text, cfg.slowT)} }(s)
 	}
 	for range rest {
 		x := <-rc
+		if pctx.Err() != nil && x.r.result != "unsat" && x.r.result != "sat" {
+			continue // cancelled after another configuration decided
+		}
 		record(x.s, x.r)
+		if (o.Result == "unsat" || o.Result == "sat") && (!cfg.twoSolver || agree >= 2 || o.Result != want) {
+			pcancel() // decided: stop the remaining configurations
+		}
 	}
-	// stage 3: first solver again with the long timeout if still undecided
-	if o.Result != "unsat" && o.Result != "sat" && o.Result != "disagree" {
-		record(avail[0], runSolver(avail[0], text, cfg.slowT))
-	}
+	pcancel()
 	o.Note = strings.Join(log, " ")
 	if cfg.twoSolver && o.Result == want && agree < 2 {
 		o.Note += " (single-solver)"
